@@ -161,6 +161,23 @@ fn main() {
         }
         c.add_sweep("short-config-construction: every driver on every transport with the configuration space truncated to every length below its full size", ev, classes.len() as u64, true, J::obj());
     }
+    // Part H: sessions long enough for the 16-bit ring indices to wrap (single executions).
+    {
+        let n = if args.tier == Tier::Quick { 66_000 } else { 140_000 };
+        let mut ev = 0u64;
+        let mut ok = 0u64;
+        for (tk, feats) in [(vlab::drivers::TKind::Model, vlab::drivers::F_VERSION_1), (vlab::drivers::TKind::Model, vlab::drivers::F_VERSION_1 | vlab::drivers::F_EVENT_IDX | vlab::drivers::F_INDIRECT), (vlab::drivers::TKind::Pci, vlab::drivers::F_VERSION_1 | vlab::drivers::F_EVENT_IDX)] {
+            let (made, v) = vlab::c07::run_long_session(tk, n, feats);
+            ev += made;
+            if v.is_empty() {
+                ok += 1;
+            }
+            for (k, d) in v {
+                c.add_violation(Violation::new("C07", k, format!("entropy driver on {} with features {:#x}: {}", tk.name(), feats, d)), "long-session", J::obj().set("kind", J::s("long-session")).set("transport", J::s(tk.name())).set("features", J::i(feats)).set("requests", J::i(n)), vec![]);
+            }
+        }
+        c.add_sweep(&format!("long-session: {} blocking entropy requests in a row against an honest device on 3 transport/feature combinations (single deterministic histories; the ring indices wrap): every call returns the device's bytes", n), ev, ok, true, J::obj());
+    }
     vlab::tracer::install_handlers();
     vlab::crash::install();
     for (name, p) in parts(args.tier) {
